@@ -1280,9 +1280,10 @@ class RaceInterp(Interp):
     """Executes the kernel for ONE arbitrary iteration of every loop; logs array accesses
     made inside the prange body as (array, field, index-terms | range, R/W)."""
 
-    def __init__(self, cap, tag, cons, load_constraints=None):
+    def __init__(self, cap, tag, cons, load_constraints=None, stable=()):
         super().__init__(cap, "int")
         self.tag, self.cons = tag, cons
+        self.stable = set(stable)   # arrays no iteration writes: equal indices load equal values in every iteration
         self.par = None          # symbolic index of the prange iteration being executed
         self.acc = []            # (name, field, kind, ('idx', terms) | ('range', lo, hi))
         self.load_constraints = load_constraints or {}
@@ -1352,6 +1353,18 @@ class RaceInterp(Interp):
             return (it.val, True)
         return super().iternext(it)
 
+    def load_value(self, obj, terms):
+        ty = _unlit(obj.dtype)
+        if obj.name in self.stable and isinstance(ty, (types.Integer, types.Float, types.Boolean)):
+            rs = z3.IntSort() if isinstance(ty, types.Integer) else (z3.RealSort() if isinstance(ty, types.Float) else z3.BoolSort())
+            f = z3.Function(f"LD_{obj.name}_{obj.field or ''}_{len(terms)}", *([z3.IntSort()] * len(terms)), rs)
+            v = f(*terms)
+            if not hasattr(self, "loads"):
+                self.loads = []
+            self.loads.append((obj.name, terms, v))
+            return Sym(v, ty)
+        return self.fresh(obj.dtype, f"ld_{obj.name}")
+
     def access(self, arr, kind, where):
         if self.par is not None:
             self.acc.append((arr.name, arr.field, kind, where, self.par.t))
@@ -1390,7 +1403,7 @@ class RaceInterp(Interp):
             if isinstance(obj.dtype, types.Record) and obj.field is None:
                 return SymRec(obj, terms)
             self.access(obj, "R", ("idx", terms))
-            v = self.fresh(obj.dtype, f"ld_{obj.name}")
+            v = self.load_value(obj, terms)
             lc = self.load_constraints.get(obj.name)
             if lc is not None:
                 self.cons.extend(lc(v.t))
